@@ -85,6 +85,10 @@ pub fn run_block(p: &HistProp, seed: u64, first: u64, count: u64, tier: Tier) ->
             digest = mix(&[digest, crate::rng::hash_str(&v.class)]);
         }
         br.digests.push(digest);
+        br.stable_digests.push(match &j.violation {
+            Some(v) => mix(&[out.stable_digest, crate::rng::hash_str(&v.class)]),
+            None => out.stable_digest,
+        });
         for (k, v) in &out.fired.map {
             br.bump(k, *v);
         }
@@ -661,18 +665,32 @@ fn cross_process_pass(p: &HistProp, seed: u64, tier: Tier, n: u64, same_seed_onl
 pub fn determinism_precheck(p: &HistProp, seed: u64, tier: Tier, runs: u64) -> Result<u64, String> {
     let a = coord::run_plan(&Plan { prop: p.id, tier: tier.name().into(), seed, runs, block: runs, workers: 1 })?;
     let b = coord::run_plan(&Plan { prop: p.id, tier: tier.name().into(), seed, runs, block: (runs / 8).max(1), workers: coord::workers() })?;
-    if a.violation.is_some() || b.violation.is_some() {
-        // a violation is reported by the main pass, with minimisation; here only compare digests
-    }
+    // (a violation is reported by the main pass, with minimisation; here only digests are compared)
+    let mut internal_only: Option<u64> = None;
     for (i, d) in &a.digests {
         if let Some(d2) = b.digests.get(i) {
             if d != d2 {
+                // The full event log (reach probes, seam counters) differs between the two block
+                // partitions. If what the callers observed is the same, the library keeps
+                // process-wide state that survives from one run to the next in a block (a cache, an
+                // interner): legitimate, and no concern of the property. Only a difference in the
+                // observations is reported.
+                if a.stable_digests.get(i) == b.stable_digests.get(i) {
+                    internal_only.get_or_insert(*i);
+                    continue;
+                }
                 return Err(format!(
                     "MISMATCH {i} {}: run {i} produced different event logs in two fresh processes ({d:016x} vs {d2:016x}): nondeterminism reached the simulation",
                     p.id
                 ));
             }
         }
+    }
+    if let Some(i) = internal_only {
+        eprintln!(
+            "note: {}: the library keeps process-wide state across runs (first seen at run {i}: seam counters or reach probes differ between block partitions, the callers' observations do not)",
+            p.id
+        );
     }
     Ok(a.digests.len().min(b.digests.len()) as u64)
 }
